@@ -25,11 +25,12 @@ const (
 	UUnknownEv  = "unkE"
 	UUnknownSt  = "unkS" // statement the library does not classify
 	UTx2        = "tx2"  // BEGIN, 2 statements on 2 tables, XID
+	UTxDDL      = "txD"  // BEGIN, rows, a DDL statement INSIDE the transaction (DROP TEMPORARY TABLE), rows, XID
 	USet        = "set"  // SET statement outside a transaction
 )
 
 // BoundaryAlphabet is the C02 alphabet, simplest first.
-var BoundaryAlphabet = []string{UTxXID, UTxCommit, UDDL, UAutoRows, UTxRollback, UStmtOut, UStmtIn, URotate,
+var BoundaryAlphabet = []string{UTxXID, UTxCommit, UDDL, UAutoRows, UTxRollback, UStmtOut, UStmtIn, URotate, UTxDDL,
 	UGTID, UAnonGTID, UPrevGTIDs, UHeartbeat, UUnknownEv, UUnknownSt}
 
 // NoiseUnits never alter the grouping.
@@ -148,6 +149,13 @@ func (g *Gen) Unit(u string) []*ref.AEvent {
 	case UStmtIn:
 		return []*ref.AEvent{ref.Q(ts, "shop", g.sp("BEGIN", g.Begin)),
 			ref.Q(ts, "shop", fmt.Sprintf("UPDATE item SET qty=qty+%d", k), cs), ref.X(ts+1, uint64(900+k))}
+	case UTxDDL:
+		return []*ref.AEvent{ref.Q(ts, "shop", g.sp("BEGIN", g.Begin), cs), ref.TM(ts, ta),
+			ref.R(ts, ref.RowWrite, ta, ref.RowChange{After: rowA(k, label, 3)}),
+			ref.Q(ts+1, "shop", "DROP TEMPORARY TABLE IF EXISTS `tmp1` /* generated by server */", cs),
+			ref.TM(ts+1, tb),
+			ref.R(ts+1, ref.RowWrite, tb, ref.RowChange{After: rowB(uint64(k), "after the ddl")}),
+			ref.X(ts+2, uint64(900+k))}
 	case UTx2:
 		return []*ref.AEvent{ref.Q(ts, "shop", g.sp("BEGIN", g.Begin), cs), ref.TM(ts, ta), ref.TM(ts, tb),
 			ref.R(ts, ref.RowWrite, ta, ref.RowChange{After: rowA(k, label, 7)}, ref.RowChange{After: rowA(k+1000, label+"b", 8)}),
@@ -198,7 +206,7 @@ func (g *Gen) Build(units []string) *ref.History {
 
 func isCommitUnit(u string) bool {
 	switch u {
-	case UTxXID, UTxCommit, UTxRollback, UDDL, UAutoRows, UStmtOut, UStmtIn, UTx2, USet, "pattern":
+	case UTxXID, UTxCommit, UTxRollback, UDDL, UAutoRows, UStmtOut, UStmtIn, UTx2, UTxDDL, USet, "pattern":
 		return true
 	}
 	return false
